@@ -9,12 +9,14 @@
 package main
 
 import (
-	"io"
-	"os"
 	"context"
 	"fmt"
+	"io"
+	"os"
+	"regexp"
 	"sort"
 	"strings"
+	"time"
 
 	"github.com/pingcap/kvproto/pkg/metapb"
 	"github.com/pingcap/kvproto/pkg/pdpb"
@@ -25,6 +27,9 @@ import (
 	"github.com/tikv/pd/server/config"
 	"github.com/tikv/pd/server/core"
 	"github.com/tikv/pd/server/kv"
+	"github.com/tikv/pd/server/schedule"
+	"github.com/tikv/pd/server/schedule/hbstream"
+	"github.com/tikv/pd/server/schedule/operator"
 	"go.uber.org/zap"
 	"go.uber.org/zap/zapcore"
 	"verif/engine/explore"
@@ -245,15 +250,21 @@ func (f *faultKV) Save(k, v string) error {
 	return f.Base.Save(k, v)
 }
 
+// withOperators: the cluster has a (not running) coordinator, heartbeats go through
+// HandleRegionHeartbeat and every served region that can have one carries a transfer-leader operator.
+var withOperators bool
+
 type sys struct {
+	oc      *schedule.OperatorController
+	hbs     *hbstream.HeartbeatStreams
 	flushed bool // active region storage: nothing is pending in the batch
-	fk     *faultKV
-	bc     *core.BasicCluster
-	rc     *cluster.RaftCluster
-	st     *core.Storage
-	cancel context.CancelFunc
-	maxEp  map[uint64][3]uint64 // per id: highest served (ver, conf, term) seen so far
-	keyVer map[string]uint64    // per probe key: highest served version seen so far
+	fk      *faultKV
+	bc      *core.BasicCluster
+	rc      *cluster.RaftCluster
+	st      *core.Storage
+	cancel  context.CancelFunc
+	maxEp   map[uint64][3]uint64 // per id: highest served (ver, conf, term) seen so far
+	keyVer  map[string]uint64    // per probe key: highest served version seen so far
 }
 
 // withIdleRegionStorage: the storage is built with a region storage (LevelDB) that is not
@@ -286,8 +297,24 @@ func newSys(withIdleRegionStorage bool) *sys {
 	}
 	rc := cluster.NewRaftCluster(ctx, "/pd/7/raft", 7, nil, nil, nil)
 	bc := core.NewBasicCluster()
-	rc.InitCluster(mockid.NewIDAllocator(), config.NewTestOptions(), st, bc)
-	return &sys{fk: fk, rc: rc, st: st, bc: bc, cancel: cancel, maxEp: map[uint64][3]uint64{}, keyVer: map[string]uint64{}}
+	opts := config.NewTestOptions()
+	if withOperators {
+		// the cluster has no rule manager (InitCluster only): operators are built without the rule fit
+		r := opts.GetReplicationConfig().Clone()
+		r.EnablePlacementRules = false
+		opts.SetReplicationConfig(r)
+	}
+	rc.InitCluster(mockid.NewIDAllocator(), opts, st, bc)
+	var oc *schedule.OperatorController
+	var hbs *hbstream.HeartbeatStreams
+	if withOperators {
+		for id := uint64(1); id <= 5; id++ {
+			bc.PutStore(core.NewStoreInfo(&metapb.Store{Id: id}, core.SetLastHeartbeatTS(time.Now())))
+		}
+		hbs = hbstream.NewTestHeartbeatStreams(ctx, 7, rc, false)
+		oc = rc.VerifSetCoordinator(hbs)
+	}
+	return &sys{oc: oc, hbs: hbs, fk: fk, rc: rc, st: st, bc: bc, cancel: cancel, maxEp: map[uint64][3]uint64{}, keyVer: map[string]uint64{}}
 }
 
 func (s *sys) close() { s.cancel() }
@@ -500,6 +527,56 @@ func (s *sys) deliver(sn snap, sequential bool) *hist.Violation {
 	return s.observe("after "+sn.String(), sequential)
 }
 
+var curStepRe = regexp.MustCompile(`currentStep:(\d+)`)
+
+// opDigest: the operators of the controller (region, status, current step, steps).
+func (s *sys) opDigest() string {
+	var l []string
+	for _, op := range s.oc.GetOperators() {
+		var steps []string
+		for i := 0; i < op.Len(); i++ {
+			steps = append(steps, op.Step(i).String())
+		}
+		l = append(l, fmt.Sprintf("r%d:%s:step%s:%s", op.RegionID(), operator.OpStatusToString(op.Status()), curStepRe.FindStringSubmatch(op.String())[1], strings.Join(steps, ";")))
+	}
+	sort.Strings(l)
+	return strings.Join(l, " ")
+}
+
+// deliverWithOperator: the heartbeat goes through HandleRegionHeartbeat (cache, then the region's
+// operator). A refused heartbeat changes nothing: neither cache nor storage, nor the operators, and
+// no command is sent for it.
+func (s *sys) deliverWithOperator(sn snap) *hist.Violation {
+	m := mkRegion(sn)
+	stale, why := s.staleByStatement(m)
+	before, opsBefore := s.digest(), s.opDigest()
+	s.hbs.VerifDrain()
+	err := s.rc.HandleRegionHeartbeat(m)
+	sent := s.hbs.VerifDrain()
+	if stale {
+		if err == nil {
+			return &hist.Violation{Key: "stale-accepted", Msg: fmt.Sprintf("heartbeat %s is %s but was answered without error", sn, why)}
+		}
+		if after, opsAfter := s.digest(), s.opDigest(); after != before || opsAfter != opsBefore || len(sent) > 0 {
+			return &hist.Violation{Key: "stale-changed-state", Msg: fmt.Sprintf("refused heartbeat %s (%s) changed the state or drove an operator (%d commands sent):\n  before %s || %s\n  after  %s || %s", sn, why, len(sent), before, opsBefore, after, opsAfter)}
+		}
+	}
+	if err == nil {
+		if c := s.rc.GetRegion(m.GetID()); c != nil && s.oc.GetOperator(c.GetID()) == nil && c.GetLeader() != nil && len(c.GetVoters()) >= 2 {
+			for _, p := range c.GetVoters() {
+				if p.GetStoreId() != c.GetLeader().GetStoreId() {
+					if op, e := operator.CreateTransferLeaderOperator("verif", s.rc, c, c.GetLeader().GetStoreId(), p.GetStoreId(), operator.OpLeader); e == nil {
+						s.oc.AddOperator(op)
+						s.hbs.VerifDrain()
+					}
+					break
+				}
+			}
+		}
+	}
+	return s.observe("after "+sn.String(), true)
+}
+
 // cacheDigest is what the comparison with the one-at-a-time orders looks at: id, range, version,
 // conf version and peer count of every served region. Leader and raft term are left out, and so
 // are the accept / refuse answers: processRegionHeartbeat decides what has changed against a
@@ -572,13 +649,14 @@ func sequentialOutcomes(streams [][]snap) map[string]bool {
 
 type model struct {
 	idle   bool // storage with a region storage that is not switched on
+	ops    bool // heartbeats through HandleRegionHeartbeat, operators on the served regions
 	rs     bool // region storage switched on, plus a flush operation
 	faults bool // every heartbeat also in a variant whose region save fails; pd logs to a discarding debug-level logger
-	hs    []*thist
-	maxA  int
-	cur   int
-	s     *sys
-	trail []string
+	hs     []*thist
+	maxA   int
+	cur    int
+	s      *sys
+	trail  []string
 }
 
 func newModel(depth int) *model { return newModelFrom(depth, false) }
@@ -628,6 +706,7 @@ func (m *model) Reset() {
 		m.s.close()
 	}
 	activeRegionStorage = m.rs
+	withOperators = m.ops
 	if m.faults {
 		// every log line is formatted (and thrown away), as with a debug-level log file
 		log.ReplaceGlobals(discardLogger, &log.ZapProperties{})
@@ -686,12 +765,22 @@ func (m *model) Apply(op int) *hist.Violation {
 	i, f, _ := m.msgOf(m.hs[m.cur].msgs, op)
 	m.s.fk.failSave = f
 	defer func() { m.s.fk.failSave = false }()
+	if m.ops {
+		return m.s.deliverWithOperator(m.hs[m.cur].msgs[i])
+	}
 	return m.s.deliver(m.hs[m.cur].msgs[i], true)
 }
 func (m *model) Key() string {
 	// the monotonicity trackers are part of the state: two histories that served different
 	// maxima must not be merged
-	return fmt.Sprintf("%d|%s|%v|%v|%v", m.cur, m.s.digest(), m.s.maxEp, m.s.keyVer, m.s.fk.failed) + m.s.pending()
+	return fmt.Sprintf("%d|%s|%v|%v|%v", m.cur, m.s.digest(), m.s.maxEp, m.s.keyVer, m.s.fk.failed) + m.s.pending() + m.opKey()
+}
+
+func (m *model) opKey() string {
+	if !m.ops {
+		return ""
+	}
+	return "|" + m.s.opDigest()
 }
 
 // ---- engine A: concurrent streams ----
@@ -839,10 +928,12 @@ func main() {
 			{Name: "deliver/h1/len3/save-faults+logging", Tiers: "quick", Depth: 4, NewModel: func() hist.Model { m := newModel(1); m.faults = true; return m }},
 			{Name: "deliver/h1/len4/region-storage+flushes", Tiers: "quick", Depth: 5, NewModel: func() hist.Model { m := newModel(1); m.rs = true; return m }},
 			{Name: "deliver/three/h2/len4/region-storage+flushes", Tiers: "quick", Depth: 6, NewModel: func() hist.Model { m := newModelFrom(2, true); m.rs = true; return m }},
+			{Name: "deliver/h2/len3/operators", Tiers: "quick", Depth: 4, NewModel: func() hist.Model { m := newModel(2); m.ops = true; return m }},
 			{Name: "deliver/h1/len5", Tiers: "quick", Depth: 6, NewModel: func() hist.Model { return newModel(1) }},
 			{Name: "deliver/h3/len4", Tiers: "thorough", Depth: 5, NewModel: func() hist.Model { return newModel(3) }},
 			{Name: "deliver/h2/len4/save-faults+logging", Tiers: "thorough", Depth: 5, NewModel: func() hist.Model { m := newModel(2); m.faults = true; return m }},
 			{Name: "deliver/h2/len5/region-storage+flushes", Tiers: "thorough", Depth: 6, NewModel: func() hist.Model { m := newModel(2); m.rs = true; return m }},
+			{Name: "deliver/h3/len4/operators", Tiers: "thorough", Depth: 5, NewModel: func() hist.Model { m := newModel(3); m.ops = true; return m }},
 			{Name: "deliver/h2/len6", Tiers: "thorough", Depth: 7, NewModel: func() hist.Model { return newModel(2) }},
 		},
 		Rule: "TiKV histories (split/merge/conf-change/leader-change from 1-2 initial regions over 3 key points, with and without reported terms) are enumerated; engine B delivers every sequence with duplicates of a history's region snapshots to the real processRegionHeartbeat (first op = choice of history), engine A delivers windows of the alphabet from concurrent streams under every schedule",
